@@ -410,18 +410,17 @@ func c03Enumerate(sh *evidence.Shard) {
 	}
 
 	// --- UnProtect -----------------------------------------------------------------------------------
-	maxLen := 44
-	p = r.Part("UnProtect/lengths", map[string]any{"packet_len": "0..44", "pn_offset": "0..len+2", "first_byte": "00,40,43,80,c0,c3,ff", "pn_max": []int{0, 2}, "content": "0x00.. / 0xff.."}, nil)
-	for n := 0; n <= maxLen; n++ {
-		for off := 0; off <= n+2; off++ {
+	// preconditions of the only caller (ReadCryptoPayload): the packet number offset is the
+	// header length (>= 7) and the packet is cut to offset+Length with Length >= 1
+	p = r.Part("UnProtect/lengths", map[string]any{"pn_offset": "7..30", "packet_len": "pn_offset+1 .. pn_offset+24", "first_byte": "00,40,43,80,c0,c3,ff", "pn_max": []int{0, 2}, "content": "0x00.. / 0xff.."}, nil)
+	for off := 7; off <= 30; off++ {
+		for n := off + 1; n <= off+24; n++ {
 			for _, fb := range []byte{0x00, 0x40, 0x43, 0x80, 0xc0, 0xc3, 0xff} {
 				for _, fill := range []string{"\x00", "\xff"} {
 					for _, pm := range []int64{0, 2} {
 						r.Do(p, func() *c03lib.Case {
 							b := c03lib.Fill(n, fill)
-							if n > 0 {
-								b[0] = fb
-							}
+							b[0] = fb
 							return &c03lib.Case{Dec: "quic.PacketProtector.UnProtect", In: b, P: []int64{int64(off), pm}}
 						})
 					}
